@@ -25,7 +25,17 @@ def programs(ctx, n, seed_off=0, variants=0, cfg="GenFrontend.cfg"):
 
 
 def run_programs(ctx, scn):
-    events, _ = core.vh_sharded(ctx, "frontend", scn, timeout=3000)
+    raw, _ = core.vh_sharded(ctx, "frontend", scn, timeout=3000, resilient=True)
+    # the driver announces every program before it compiles it; a process that dies there (logrus.Fatal in the library,
+    # stack exhaustion) leaves `start` followed by the orchestrator's `fatal`: a run with no result, which no action of
+    # the trace specification explains
+    events = []
+    for i, e in enumerate(raw):
+        if e["e"] == "start":
+            if i + 1 < len(raw) and raw[i + 1]["e"] == "fatal" and raw[i + 1]["t"] == e["t"]:
+                events.append({"t": e["t"], "e": "begin", "seed": 0})
+            continue
+        events.append(e)
     prints, nev, _ = core.validate(ctx, "FrontendTrace", "FrontendTrace.cfg", events, chunk=25000)
     return events, prints, nev
 
